@@ -124,7 +124,8 @@ int main(int argc, char** argv) {
     }
     R.bound_done("aliases x placements; compatibility options");
     // malformed values for every typed option on both sources
-    for (size_t i = 0; i < NOPTS; i++) for (const char* bad : {"abc", "1e", "1,5", "", "0x", "64abc", "1.5x", "1..2", "3 4", "32.5", "1e3", "0x40", "-1", "maybe", "2"}) for (int src = 0; src < 2; src++) {
+    // src 0: command line; 1: config file; 2: config file while the command line gives the same option a proper value (the file's value is malformed all the same)
+    for (size_t i = 0; i < NOPTS; i++) for (const char* bad : {"abc", "1e", "1,5", "", "0x", "64abc", "1.5x", "1..2", "3 4", "32.5", "1e3", "0x40", "-1", "maybe", "2"}) for (int src = 0; src < 3; src++) {
         const Opt& o = OPTS[i]; if (o.type == 's') continue;
         if (std::string(bad).empty() && o.type == 'b') continue;   // an empty value is boost's notation for a switch given without value
         {   // tokens that are malformed only for some types: fractions / exponents / hexadecimal for integers, a sign for unsigned, non-boolean words and numbers for switches
@@ -134,15 +135,17 @@ int main(int argc, char** argv) {
             if (b == "-1" && o.type != 'u') continue;
             if ((b == "maybe" || b == "2") && o.type != 'b') continue;
             if ((b == "64abc" || b == "1.5x" || b == "1..2") && o.type == 'b') continue;
-            if (b == "3 4" && (o.type == 'v' || o.type == 'b' || src == 1)) continue;   // two tokens: legal for a list; in a file the line is one token and covered by the others
+            if (b == "3 4" && (o.type == 'v' || o.type == 'b' || src >= 1)) continue;   // two tokens: legal for a list; in a file the line is one token and covered by the others
         }
-        std::string kase = std::string("malformed ") + o.name + " value='" + bad + "' src=" + (src ? "cfg" : "cli");
+        std::string kase = std::string("malformed ") + o.name + " value='" + bad + "' src=" + (src == 2 ? "cfg-under-cli" : src ? "cfg" : "cli");
         if (!R.mine(kase)) continue;
         const std::string bs = bad;
         const std::string cls = bs == "-1" ? "sign-for-unsigned" : (bs == "64abc" || bs == "1.5x" || bs == "1e" || bs == "0x") ? "number-then-garbage" : (bs == "32.5" || bs == "1e3") ? "fraction-or-exponent-for-integer"
                               : bs == "0x40" ? "hexadecimal" : (bs == "maybe" || bs == "2") ? "not-a-boolean" : bs.empty() ? "empty" : (bs == "1,5" || bs == "1..2" || bs == "3 4") ? "two-numbers" : "word";
-        const std::string keyb = std::string("C20/malformed/") + (src ? "cfg/" : "cli/") + cls;
-        if (src == 0) expect_error(kase, keyb, {{o.name, bad}}, {}); else expect_error(kase, keyb, {}, {}, {std::string(o.name) + "=" + bad});
+        const std::string keyb = std::string("C20/malformed/") + (src == 2 ? "cfg-while-cli-gives-the-option/" : src ? "cfg/" : "cli/") + cls;
+        if (src == 0) expect_error(kase, keyb, {{o.name, bad}}, {});
+        else if (src == 1) expect_error(kase, keyb, {}, {}, {std::string(o.name) + "=" + bad});
+        else expect_error(kase, keyb, {{o.name, o.v1}}, {}, {std::string(o.name) + "=" + bad});
     }
     // unknown names on both sources
     for (const char* nm : {"NoSuchOption", "gridsize", "Alpha0", "x"}) for (int src = 0; src < 2; src++) {
@@ -151,9 +154,11 @@ int main(int argc, char** argv) {
         if (src == 0) expect_error(kase, "C20/unknown/cli", {{nm, "1"}}, {}); else expect_error(kase, "C20/unknown/cfg", {}, {}, {std::string(nm) + "=1"});
     }
     // missing / directory config path: parse() must say "do not run" (it prints the message itself)
-    for (const char* path : {"no_such_file.cfg", "."}) {
+    // (a missing file is only tolerated under the name the program falls back to when --config is NOT given; given explicitly, that name is a path like any other)
+    for (const char* path : {"no_such_file.cfg", ".", "default.cfg"}) {
         std::string kase = std::string("config-path ") + path; if (!R.mine(kase)) continue;
-        ProgramOptions a; std::string err; std::vector<std::string> av = {"inovesa", "--config", std::string(path) == "." ? DIR : DIR + "/" + path};
+        ProgramOptions a; std::string err; std::vector<std::string> av = {"inovesa", "--config", std::string(path) == "." ? DIR : std::string(path) == "default.cfg" ? std::string(path) : DIR + "/" + path};
+        if (std::string(path) == "default.cfg") remove("default.cfg");
         std::vector<char*> cv; for (auto& s : av) cv.push_back(const_cast<char*>(s.c_str()));
         int rc; try { rc = a.parse((int)cv.size(), cv.data()) ? 1 : 0; } catch (...) { rc = -1; }
         R.eval(kase, mcx::fnvs(kase), false);
